@@ -67,16 +67,16 @@ DESIGN = {
     "C08": [("retry_nocup.cfg", "all"), ("sched.cfg", 250), ("history.cfg", 400), ("clock.cfg", 200)],
     "C09": [("flow.cfg", "all"), ("sched.cfg", 250), ("history.cfg", 400)],
     "C10": [("flow.cfg", "all"), ("reports.cfg", "all")],
-    "C11": [("sched.cfg", 400), ("history.cfg", 200), ("sched_inv.cfg", "inv"), ("live_sched.cfg", "live")],
-    "C12": [("sched.cfg", 400), ("stale.cfg", 300), ("sched_inv.cfg", "inv")],
+    "C11": [("sched.cfg", 400), ("history.cfg", 200), ("sched_inv_q.cfg", "inv"), ("live_sched.cfg", "live")],
+    "C12": [("sched.cfg", 400), ("stale.cfg", 300), ("sched_inv_q.cfg", "inv"), ("abs_inv_q.cfg", "inv")],
     "C13": [("sched.cfg", 250), ("flow.cfg", "all"), ("progress.cfg", "all"), ("live_sched.cfg", "live")],
     "C14": [("flow.cfg", "all"), ("sfail.cfg", "all"), ("clock.cfg", 500), ("live_retry.cfg", "live"), ("live_sched.cfg", "live")],
     "C18": [("flow.cfg", "all"), ("sched.cfg", 250), ("history.cfg", 400), ("clock.cfg", 300)],
 }
 # (history_inv: 10.1 million distinct states, ~17 min on 8 workers: a crash at every operation of every behaviour, twice)
 THOROUGH_INV = {"C04": ["sched_inv.cfg"], "C05": ["sched_inv.cfg"], "C07": ["sched_inv.cfg"],
-                "C08": ["sched_inv.cfg", "history_inv.cfg"], "C09": ["sched_inv.cfg", "history_inv.cfg"], "C11": [],
-                "C12": [], "C13": ["sched_inv.cfg"], "C18": ["sched_inv.cfg", "history_inv.cfg"]}
+                "C08": ["sched_inv.cfg", "history_inv.cfg"], "C09": ["sched_inv.cfg", "history_inv.cfg"], "C11": ["sched_inv.cfg"],
+                "C12": ["sched_inv.cfg", "abs_inv.cfg"], "C13": ["sched_inv.cfg"], "C18": ["sched_inv.cfg", "history_inv.cfg"]}
 
 
 def prop_cfg(cfg, pid, wd):
